@@ -2167,7 +2167,7 @@ VARIANTS = [
 
 META = {
     "design_ref": "DESIGN.md section 3, C17",
-    "technique": "table extraction + finite order-type decision of every extracted bound claim; constructor-shape checks (De Morgan, negation/mirror tables); definite-assignment analysis of per-condition loops (loop-carried state); mutation summary of the negation helper; small arithmetic interpreters over finite boxes (range bounds, term counts); precedence / template algebra of operand wildcards",
+    "technique": "table extraction + finite order-type decision of every extracted bound claim; constructor-shape checks (De Morgan, negation/mirror tables); definite-assignment analysis of per-condition loops (loop-carried state); mutation summary of the negation helper; small arithmetic interpreters over finite boxes (range bounds, term counts); precedence / template algebra of operand wildcards and of operands joined as text; call-graph reachability of sympy text readers with a path-condition refusal of `^` at the first reaching call",
     "level_text": ("Decides on the current source every table-shaped logical claim the condition rewrites rely on: the "
                    "negation and mirror tables against Python's comparison semantics, De Morgan construction, all pairwise "
                    "threshold claims of simplify_boolean_expressions (each decided exhaustively over the order types of x "
